@@ -60,13 +60,15 @@ OPTIONAL_FEATURES = frozenset({
     "titles",             # title annotations on inline subschemas
     "idioms",             # apply 0-4 idiom mutations to the printed document
     "root_enum",          # the root schema may be an enum rather than a struct
+    "int_enums",          # integer enumerations with a format, the format's own bounds among the values
+    "req_undeclared",     # an open struct may require a member it does not declare (any value / the additional schema's)
     "typed_addl",         # structs with `additionalProperties: <schema>` next to their properties (a flattened map member)
     "objunion",           # oneOf / anyOf whose branches are ALL objects (told apart by required / closed members; non-exclusive anyOf)
 })
 ALL_FEATURES = DEFAULT_FEATURES | OPTIONAL_FEATURES
 FEATURE_SETS = {
     "default": DEFAULT_FEATURES,
-    "formats": DEFAULT_FEATURES | {"string_formats"},
+    "formats": DEFAULT_FEATURES | {"string_formats", "int_enums"},
     "recursive": DEFAULT_FEATURES | {"recursion", "root_ref"},
     "allof": DEFAULT_FEATURES | {"allof", "allof_closed", "allof_refine"},
     "not": DEFAULT_FEATURES | {"not"},
@@ -80,8 +82,8 @@ FEATURE_SETS = {
     "c09": frozenset({"struct", "closed", "strenum", "vec", "map", "option", "int_formats", "bool",
                       "refs", "allof", "allof_closed", "allof_unsat", "allof_refine"}),
     "hostile": DEFAULT_FEATURES | {"hostile_names"},
-    "maps": DEFAULT_FEATURES | {"map_keys", "any", "defaults", "typed_addl"},
-    "unions": DEFAULT_FEATURES | {"objunion", "allof", "typed_addl"},
+    "maps": DEFAULT_FEATURES | {"map_keys", "any", "defaults", "typed_addl", "req_undeclared"},
+    "unions": DEFAULT_FEATURES | {"objunion", "allof", "typed_addl", "req_undeclared", "int_enums"},
     "all": ALL_FEATURES - {"hostile_names", "invalid_defaults", "allof_unsat", "not_untyped"},
 }
 
@@ -579,7 +581,15 @@ class _Universe:
         n = self.rng.randint(1, 4)
         return {"k": "strenum", "values": self.names.pick(ENUM_VALUES, n)}
 
+    def t_int_enum(self):
+        r = self.rng
+        fmt = r.choice(["int8", "int16", "int32", "int64", "uint8", "uint16", "uint32", "uint64"])
+        lo, hi = INT_FORMATS[fmt]
+        vals = sorted(set(r.sample([lo, hi, 0, 1, hi - 1, lo + 1, 7, 1024 if hi >= 1024 else 100, hi // 2], r.randint(2, 4))))
+        return {"k": "raw", "schema": {"type": "integer", "format": fmt, "enum": vals}}
+
     def t_scalar(self):
+        if self.has("int_enums") and self.coin(0.08): return self.t_int_enum()
         opts = [("str", 4)]
         if self.has("bool"): opts.append(("bool", 2))
         if self.has("int_formats") or self.has("int_ranges") or True: opts.append(("int", 4))
@@ -700,6 +710,8 @@ class _Universe:
     def t_struct(self, depth, small=False):
         n = self.rng.randint(1, 3) if small else self.rng.randint(1, 2 + min(self.size, 4))
         st = {"k": "struct", "props": self.props(depth, n), "closed": self.has("closed") and self.coin(0.3)}
+        if self.has("req_undeclared") and not st["closed"] and self.coin(0.12):
+            st["req_extra"] = self.names.pick(PROP_NAMES, 1, avoid={p["name"] for p in st["props"]})
         if self.has("typed_addl") and not st["closed"] and self.coin(0.3):
             st["addl"] = self.t_scalar() if self.coin(0.7) else {"k": "vec", "t": self.t_scalar()}
         return st
@@ -1067,6 +1079,7 @@ class _Printer:
             return m
         if k == "struct":
             ps = self.p_struct(t["props"], t["closed"])
+            if t.get("req_extra"): ps["required"] = ps.get("required", []) + list(t["req_extra"])
             if t.get("addl") is not None: ps["additionalProperties"] = self.p(t["addl"])
             return ps
         if k == "allof": return {"allOf": [self.p(x) for x in t["parts"]]}
